@@ -101,7 +101,7 @@ def parse_tlc_output(text):
                     if mm:
                         cur = mm.group(1)
                         state[cur] = mm.group(2)
-                elif l2.startswith("Error:") or _RE_STATS.search(l2) or l2.startswith("Finished") \
+                elif l2.startswith("Error:") or _RE_STATS.search(l2) or l2.startswith("Finished") or l2.startswith("Computed ") \
                         or l2.startswith("Progress") or l2.startswith("The number of states"):
                     break
                 elif cur is not None and l2.strip() != "":
@@ -259,9 +259,13 @@ def validate_records(module, cfg, records, shards=None, timeout=3600, env=None, 
                 "trace not fully consumed by %s/%s: %d records, %s states\n%s"
                 % (module, cfg, cnt, seen, res.raw[-1500:]))
         for name, st in res.violations:
-            if "r" not in st:
+            key = "r" if "r" in st else "tid"
+            if key not in st:
                 raise MachineryError("violation without record index: %r %r" % (name, st))
-            failures.append((base + int(st["r"]) - 1, name))
+            mr = re.match(r"^\s*(\d+)", st[key])
+            if not mr:
+                raise MachineryError("unparsable record index %r" % (st[key],))
+            failures.append((base + int(mr.group(1)) - 1, name))
     failures.sort()
     return failures, {"generated": gen, "distinct": dist, "accepted": len(records) - len({f[0] for f in failures}),
                       "wall": wall, "jvms": len(outs)}
